@@ -31,11 +31,21 @@ def clause_author_guard(prog, rep):
                   "a Message is built (and saved) from a decrypted rumor without a checked author-binding guard on every path",
                   "%s:%s" % (f.file, s.get("line")), chain)
         # wiring of the guard call: rumor pubkey vs credential of the processed MLS message
+        # the innermost guard calls: calls (anywhere below process_message) to a function that itself raises AuthorMismatch
+        raisers = set(g.path for g in prog.nontest_fns(("mdk_core",)) if any(True for _ in g.aggregates("Error", "AuthorMismatch")))
+        leaf = [(prog.fns[p], c) for p in sorted(scope) for c in prog.fns[p].live_calls() if any(t.path in raisers for t in prog.call_targets(c))]
         gcs = [c for c in f.live_calls() if is_guard(c)]
         wired = False
-        for c in gcs:
-            ogs = [A.origins(prog, f, a["p"][0], scope=core) for a in c.args if "p" in a]
-            has_rumor = any("pubkey" in og.fields and og.has_call(lambda x: x.name == "from_json") for og in ogs)
+        for g, c in leaf:
+            ogs = [A.origins(prog, g, a["p"][0], scope=core) for a in c.args if "p" in a]
+            # the key handed to the guard IS the decoded rumor's `pubkey` field (copy provenance, not mere dependence: the
+            # credential's own origins are broad enough to mention every field)
+            has_rumor = False
+            for a in c.args:
+                if "p" in a and "PublicKey" in g.locals[a["p"][0]]:
+                    pr_k = A.producers(prog, g, a["p"][0], scope=set(), max_frames=0)
+                    if "pubkey" in pr_k["fields"] and pr_k["calls"] and all(x.name == "from_json" for x in pr_k["calls"]) and not pr_k["params"]:
+                        has_rumor = True
             has_cred = any(og.has_call(lambda x: x.name == "credential" and last_seg(x.self_adt) == "ProcessedMessage") for og in ogs)
             if has_rumor and has_cred:
                 wired = True
